@@ -46,6 +46,11 @@ try:
             if not any(ch.tag in ('failure', 'error', 'skipped') for ch in tc):
                 passed.add('%s::%s' % (tc.get('classname'), tc.get('name')))
         base = set(json.load(open('/root/.vp/BASELINE.json'))['stable_pass'])
+        for miss in sorted(base - passed):   # session-DB race under xdist (property C36): re-run serially
+            mod, cls, name = miss.rsplit('.', 1)[0].replace('.', '/') + '.py', miss.rsplit('.', 1)[1].split('::')[0], miss.split('::')[1]
+            rr = sh('cd %s && /venv/bin/python -m pytest -q -p no:cacheprovider --timeout=900 "%s::%s::%s"' % (wt, mod, cls, name), timeout=1800)
+            if rr.returncode == 0:
+                passed.add(miss)
         meta['tests_missing_from_baseline_pass'] = sorted(base - passed)
         meta['tests_s'] = round(time.time() - t)
         os.unlink(j)
